@@ -95,19 +95,23 @@ AuxAfter(x, f, tlo, thi) ==
 
 (***************************** single frame ********************************)
 AltCode13(f) == IF DFof(f) \in {4, 20} THEN AC13of(f) ELSE (AC12of(f) \div 64) * 128 + (AC12of(f) % 64)
+AltTagOf(f) ==
+  LET c == AltCode13(f)  t == AltTag(c) IN
+  IF t # "alt.Q0" THEN t
+  ELSE IF DFof(f) \in {4, 20} THEN "alt.Q0." \o ToString(c) ELSE "alt.Q0.ext"
 FrameTag(f) ==
-  IF DFof(f) \in {4, 20} THEN AltTag(AltCode13(f))
-  ELSE IF IsAirPos(f) THEN AltTag(AltCode13(f))
-  ELSE IF IsVel12(f) THEN (IF ~VelHasInfo(f) THEN "vel.field0" ELSE IF ~VRateHasInfo(f) THEN "vr.field0" ELSE "vel")
+  IF DFof(f) \in {4, 20} \/ IsAirPos(f) THEN AltTagOf(f)
+  ELSE IF IsVel12(f) THEN (IF ~VelHasInfo(f) THEN "vel.field0" ELSE "vel")
   ELSE "df"
+VrTag(f) == IF ~IsVel(f) THEN "vr" ELSE IF VrF(f) = 0 THEN "vr.field0" ELSE IF VrF(f) = 1 THEN "vr.field1" ELSE "vr"
 
 \* all per-parameter predicates for one applied frame; pre/post rows, x = aux before the frame
 FrameChecks(ev, f, a, pre, post, ctx, x, obs, tlo, thi) ==
   LET adv == x.adv
       sl1 == SlotsAfter(x.slots, f, tlo, thi)
       vd  == PairVerdict(sl1, f)
-      tag == FrameTag(f)
-      path == IF ctx.U THEN "U" ELSE "D"
+      path == (IF ctx.U THEN "U" ELSE "D") \o (IF ctx.exists THEN ".upd" ELSE ".first")
+      tag == IF IsVel12(f) THEN FrameTag(f) \o "." \o path ELSE FrameTag(f)
   IN
   /\ Chk("C05", "alt", AdmAlt(pre, post.alt, f, ctx), ev, tag)
   /\ Mark("C05", CarriesAlt(f) /\ ~Free(f) /\ AltSpecOf(f).kind # "any", ev)
@@ -118,7 +122,7 @@ FrameChecks(ev, f, a, pre, post, ctx, x, obs, tlo, thi) ==
   /\ Mark("C07", (IsIdent(f) \/ (IsCommB(f) /\ Must20(pre, f, ctx))) /\ ~Free(f), ev)
   /\ Chk("C09", "gs", IsVel12(f) => AdmGs(pre, post.gs, f, ctx, adv), ev, tag)
   /\ Chk("C09", "track", IsVel12(f) => AdmTrk(pre, post.trk, f, ctx, adv), ev, tag)
-  /\ Chk("C09", "vrate", IsVel12(f) => AdmVr(pre, post.vr, f, ctx, adv), ev, tag)
+  /\ Chk("C09", "vrate", IsVel12(f) => AdmVr(pre, post.vr, f, ctx, adv), ev, VrTag(f))
   /\ Mark("C09", IsVel12(f), ev)
   /\ Chk("C10", "callsign", IsCommB(f) => AdmCs(pre, post.cs, f, ctx), ev, "bds20")
   /\ Chk("C10", "threat", IsCommB(f) => AdmThr(pre, post.thr, f, ctx), ev, "bds30")
@@ -148,7 +152,7 @@ FrameChecks(ev, f, a, pre, post, ctx, x, obs, tlo, thi) ==
   /\ Chk("C11", "category", AdmCat(pre, post.cat, f, ctx), ev, "cat")
   /\ Chk("C11", "gs", AdmGs(pre, post.gs, f, ctx, adv), ev, tag)
   /\ Chk("C11", "track", AdmTrk(pre, post.trk, f, ctx, adv), ev, tag)
-  /\ Chk("C11", "vrate", AdmVr(pre, post.vr, f, ctx, adv), ev, tag)
+  /\ Chk("C11", "vrate", AdmVr(pre, post.vr, f, ctx, adv), ev, VrTag(f))
   /\ Chk("C11", "survstatus", AdmSs(pre, post.ss, f, ctx), ev, "ss")
   /\ Chk("C11", "version", AdmVer(pre, post.ver, f, ctx), ev, "ver")
   /\ Chk("C11", "capability", AdmCa(pre, post.ca, f, ctx), ev, "ca")
